@@ -41,8 +41,10 @@ func (o Op) Label() string {
 		return fmt.Sprintf("pull%s(%s,%d)", o.Tgt, o.Sub, o.Max)
 	case "ack", "nack", "acknack":
 		return fmt.Sprintf("%s(%s,%s)", o.K, o.Sub, o.Sel)
-	case "updateSub", "modifyPush":
+	case "updateSub", "modifyPush", "updateSubDL":
 		return fmt.Sprintf("%s(%s)", o.K, o.Sub)
+	case "streamModack":
+		return fmt.Sprintf("streamModack(%s,%s,%v)", o.Sub, o.Sel, o.D)
 	case "updateTopic":
 		return fmt.Sprintf("%s(%s)", o.K, o.Topic)
 	case "modack":
@@ -271,9 +273,9 @@ func (m *Model) Prepare(op Op, now time.Time) (Call, bool) {
 		return c, true
 	case "pull":
 		return c, true
-	case "updateSub", "modifyPush", "updateTopic":
+	case "updateSub", "modifyPush", "updateTopic", "updateSubDL":
 		return c, true
-	case "ack", "modack", "nack", "acknack":
+	case "ack", "modack", "nack", "acknack", "streamModack":
 		s := m.Subs[op.Sub]
 		if s == nil {
 			return c, false
